@@ -64,6 +64,13 @@ def sig_programs():
                 [('all', [Obj('P', b=1, bs='top', qq=Obj('Q', b=2, bs='in', q=3), qa=[Obj('Q', b=4, bs='e0', q=5), Obj('Q', b=6, bs=None, q=None)],
                               qs=[Obj('Q', b=7, bs=None, q=8)]), Obj('Q', b=9, bs='arg', q=10)]),
                  ('inherited-only', [Obj('P', b=None, bs=None, qq=Obj('Q', b=2, bs=None, q=None), qa=[Obj('Q', b=4, bs=None, q=None)], qs=None), Obj('Q', b=9, bs=None, q=None)])]))
+    # member and parameter names that contain the delimiter character ('_' is legal in identifiers and a documented delimiter)
+    QU = {'n': 'Q', 'fields': [['unit_price', I], ['sku_', U]]}
+    PU = {'n': 'P', 'fields': [['line_items', ['a', ['c', 'Q', {}], {}]], ['home_addr', ['c', 'Q', {}]], ['n_', I]]}
+    mu = {'n': 'm', 'args': [['the_order', ['c', 'P', {}]], ['z_z', I]], 'ret': I}
+    out.append(('underscored', {'tns': TNS, 'classes': [QU, PU], 'services': [{'n': 'S', 'methods': [mu]}]},
+                [('two-items', [Obj('P', line_items=[Obj('Q', unit_price=1, sku_='a'), Obj('Q', unit_price=2, sku_='b')], home_addr=Obj('Q', unit_price=3, sku_='h'), n_=4), 5]),
+                 ('three-items', [Obj('P', line_items=[Obj('Q', unit_price=i, sku_=None) for i in range(3)], home_addr=None, n_=None), None])]))
     # two objects of the same class reached through different members / parameters, both spelling the same members
     K = {'n': 'K', 'fields': [['k', U]]}
     T = {'n': 'T', 'fields': [['i', I], ['tags', ['a', ['c', 'K', {}], {}]], ['ks', ['c', 'K', {'max_occurs': 'unbounded'}]]]}
